@@ -18,7 +18,7 @@ from ..worlds import frame as F
 ID = "C03"
 WORLD = "frame"
 LEVEL = "exploration"
-EST_RUN_S = 0.4
+EST_RUN_S = 0.1
 RULE = ("scenario = a root frame by any construction route (sizes, shape, data, from_data, units, a .fil written by RefSigproc "
         "with seeded fch1/foff/nchans/tsamp/tstart/source_name) with distinct pixels, then a seeded history over all frames "
         "alive of get_waterfall / copy / pickle round trip / get_slice / dedrift / inject / noise / clock jump / save(fil|h5) "
@@ -34,7 +34,7 @@ ASSUMPTIONS = ["data compared exactly as float32(saved data)", "frames have >= 3
                ".h5 files are checked through blimpy + h5py only (no independent HDF5 reader)"]
 PROBES = ["derived_of_loaded_frame_saved", "derived_after_get_waterfall_saved", "loaded_resaved", "copy_saved", "pickled_saved",
           "format_fil", "format_h5", "descending", "ascending", "clock_jump", "refsigproc_input", "helpers_checked", "sliced_saved",
-          "dedrifted_saved"]
+          "dedrifted_saved", "sibling_frames_alive"]
 
 
 def generate(rng, tier):
@@ -67,12 +67,24 @@ def generate(rng, tier):
         else:
             ops.append({"op": "save", "fr": fr, "fmt": rng.choice(["fil", "fil", "h5", "h5b"])})
     ops.append({"op": "save", "fr": rng.randrange(0, 8), "fmt": rng.choice(["fil", "fil", "h5"])})
+    # sibling frames alive in the same session (own geometry, own source name): their operations interleave
+    siblings = []
+    for k in range(rng.choice([0, 0, 1, 1, 2])):
+        sp = F.gen_frame_spec(rng, routes=["sizes", "shape", "data", "units", "load_fil"])
+        sp["geom"]["fchans"] = max(sp["geom"]["fchans"], 8)
+        sp["geom"]["tchans"] = max(sp["geom"]["tchans"], 3)
+        sp["source_name"] = "SIBLING_%d" % k
+        siblings.append(sp)
     return {"seams": {"clock_origin": 1.7e9 + rng.randrange(10 ** 6), "clock_jitter_seed": rng.randrange(1 << 20),
                       "entropy_salt": rng.randrange(1 << 20), "scratch": "c03"},
-            "root": spec, "ops": ops}
+            "root": spec, "siblings": siblings, "ops": ops}
 
 
 def simplify(sc):
+    for i in range(len(sc.get("siblings", []))):
+        c = copy.deepcopy(sc)
+        del c["siblings"][i]
+        yield c
     if sc["root"]["route"] != "sizes":
         c = copy.deepcopy(sc)
         c["root"]["route"] = "sizes"
@@ -204,6 +216,13 @@ def execute(sc, ctx):
         ctx.hit("refsigproc_input")
     pool = [root]
     hist = {id(root): ["loaded"] if spec["route"] == "load_fil" else []}
+    for sp in sc.get("siblings", []):
+        fr_s, _ = F.build_frame(sp, ctx)
+        if not np.any(fr_s.data):
+            fr_s.data += F.marker_data(sp).astype(fr_s.data.dtype)
+        pool.append(fr_s)
+        hist[id(fr_s)] = ["loaded"] if sp["route"] == "load_fil" else []
+        ctx.hit("sibling_frames_alive")
     nsave = 0
     saved_classes = set()
     for j, op in enumerate(sc["ops"]):
@@ -297,4 +316,4 @@ def execute(sc, ctx):
         if ctx.violations and ctx.stop_on_violation:
             return
     ctx.sim_time += root.tchans * root.dt
-    ctx.fingerprint = [spec["route"], sorted(saved_classes, key=str)]
+    ctx.fingerprint = [spec["route"], len(sc.get("siblings", [])), sorted(saved_classes, key=str)]
